@@ -73,7 +73,8 @@ HWalkSeqs(off, L) ==
                THEN { <<[tf |-> tf, size |-> s]>> \o r : r \in HWalkSeqs(off + RoundUp8(s), L) }
                ELSE { <<[tf |-> tf, size |-> s]>> }
                : tf \in WTypes, s \in 0..(L - off + 9) }
-HWalkParams == UNION { { [L |-> L, hs |-> hs] : hs \in HWalkSeqs(16, L) } : L \in {x \in 16..MaxL : x % 8 = 0} }
+\* look: payload bytes are markers, or end-tag look-alikes (every 8-byte chunk reads type 0, flags 0, size 8)
+HWalkParams == UNION { { [L |-> L, hs |-> hs, look |-> lk] : hs \in HWalkSeqs(16, L), lk \in BOOLEAN } : L \in {x \in 16..MaxL : x % 8 = 0} }
 RECURSIVE HPlace(_, _, _)
 HPlace(mem, off, hs) ==
   IF hs = <<>> THEN mem
@@ -81,7 +82,7 @@ HPlace(mem, off, hs) ==
        HPlace([i \in 1..Len(mem) |-> IF i > off /\ i <= off + 8 THEN hb[i - off] ELSE mem[i]],
               off + RoundUp8(h.size), Tail(hs))
 HWalkImage(p) ==
-  LET base == [i \in 1..p.L |-> (i * 3 + 7) % 250]
+  LET base == [i \in 1..p.L |-> IF p.look THEN <<0, 0, 0, 0, 8, 0, 0, 0>>[((i - 1) % 8) + 1] ELSE (i * 3 + 7) % 250]
       withH == HPlace(base, 16, p.hs)
       hdr == BasicHeader(HdrMagic, 0, p.L) IN
   [i \in 1..p.L |-> IF i <= 16 THEN hdr[i] ELSE withH[i]]
@@ -89,18 +90,19 @@ Rep(call, n) == [i \in 1..n |-> call]
 HWalkCase(p) ==
   LET n == Len(p.hs) + 2 IN
   [mem |-> HWalkImage(p), al |-> 0,
-   calls |-> <<[op |-> "hload"], [op |-> "htags", it |-> 0], [op |-> "next", it |-> 0], [op |-> "clone", it |-> 0, to |-> 1]>>
+   calls |-> <<[op |-> "hload"], [op |-> "htags", it |-> 0], [op |-> "next", it |-> 0], [op |-> "size_hint", it |-> 0],
+               [op |-> "clone", it |-> 0, to |-> 1]>>
              \o <<[op |-> "last", it |-> 0], [op |-> "count", it |-> 0], [op |-> "clone", it |-> 0, to |-> 3], [op |-> "nth", it |-> 3, n |-> 1],
                   [op |-> "nth", it |-> 3, n |-> 2], [op |-> "next", it |-> 3],
                   [op |-> "htags", it |-> 4], [op |-> "nth", it |-> 4, n |-> 7], [op |-> "next", it |-> 4], [op |-> "count", it |-> 4]>>
-             \o Rep([op |-> "next", it |-> 0], n) \o Rep([op |-> "next", it |-> 1], n)
+             \o Rep([op |-> "next", it |-> 0], n) \o <<[op |-> "size_hint", it |-> 0]>> \o Rep([op |-> "next", it |-> 1], n)
              \o <<[op |-> "hget", kind |-> "info_req"], [op |-> "hfield", kind |-> "info_req", f |-> "requests"],
                   [op |-> "hget", kind |-> "entry"], [op |-> "hget", kind |-> "module_align"],
                   [op |-> "hget", kind |-> "address"], [op |-> "hdbg", what |-> "hdr"], [op |-> "hdbg", what |-> "info_req"],
                   [op |-> "htags", it |-> 5], [op |-> "next", it |-> 5], [op |-> "hload"], [op |-> "next", it |-> 5],
                   [op |-> "clone", it |-> 5, to |-> 6], [op |-> "clone", it |-> 6, to |-> 7], [op |-> "next", it |-> 7],
                   [op |-> "htags", it |-> 8], [op |-> "next", it |-> 8]>>,
-   desc |-> [area |-> "hwalk", L |-> p.L, hs |-> p.hs]]
+   desc |-> [area |-> "hwalk", L |-> p.L, hs |-> p.hs, look |-> p.look]]
 
 \* ---- HFields ----------------------------------------------------------------------------------------------
 Nbr == HTag(6, 1, 8, 0)
@@ -113,7 +115,8 @@ HFieldsCase(p) ==
    desc |-> [area |-> "hfields"] @@ p]
 
 \* ---- HGetters: multiplicity and order --------------------------------------------------------------------------
-HGKinds == {"entry", "module_align", "info_req", "relocatable"}
+\* "hend": a type-0 tag in the middle does not end the walk - only the declared length does
+HGKinds == {"entry", "module_align", "info_req", "relocatable", "hend"}
 RECURSIVE SeqsUpTo(_, _)
 SeqsUpTo(S, n) == IF n = 0 THEN {<<>>} ELSE {<<>>} \cup { <<x>> \o r : x \in S, r \in SeqsUpTo(S, n - 1) }
 HLongSeq(n, lastKind) == [i \in 1..n |-> IF i % 2 = 0 THEN "module_align" ELSE "entry"] \o <<lastKind>>
